@@ -125,7 +125,17 @@ fn alphabet() -> Vec<Op> {
 
 fn judge(h: &[Op], a: &mut Acc, exhaustive: bool) {
     for nodup in [false, true] {
-        let (viol, nt) = run_history(h, nodup);
+        let (viol, nt) = match std::panic::catch_unwind(|| run_history(h, nodup)) {
+            Ok(r) => r,
+            Err(_) => {
+                let p = crate::runner::take_panics();
+                let lib = p.iter().find(|x| x.in_library());
+                match lib {
+                    Some(p) => (Some(("panic", format!("{}: panic inside the library: {} at {}:{}", if nodup { "NoDupFringe" } else { "SimpleFringe" }, p.msg, p.file, p.line))), false),
+                    None => { a.harness_error(format!("panic outside the library while running a history: {:?}", p.first().map(|x| (&x.msg, &x.file, x.line))), hist_json(h)); (None, false) }
+                }
+            }
+        };
         a.evaluations += 1;
         if nt {
             if exhaustive { a.nt_extra += 1; } else { a.nontrivial.insert(hash_of(&(h, nodup))); }
